@@ -248,6 +248,7 @@ Leaf(pr, env, t, vn) ==      \* vn: library name of the test function ("v"; "u" 
     [] t = "uxp" -> BF(env, "u", UnitD(d, 0))  [] t = "vyp" -> BF(env, vn, UnitD(d, 1))
     [] t = "uxx" -> PHessBF(pr, env, "u")[1][1]  [] t = "uxy" -> PHessBF(pr, env, "u")[1][2]
     [] t = "c" -> env.par["c"][1]  [] t = "two" -> 2  [] t = "three" -> 3  [] t = "half" -> RatP(1, 2)
+    [] t = "tiny" -> RatP(1, 134217728)  [] t = "near1" -> RatP(262145, 262144)
     [] t = "hpar" -> env.inp["h"].v[1]  [] t = "hx" -> PhysGrad(pr, env, FieldGrad(pr, env, "h", 0))[1]
     [] t = "gw" -> GW(pr, env)
     [] t = "f"  -> [v |-> env.inp["f"].v[1],  g |-> FieldGrad(pr, env, "f", 0)]
